@@ -21,7 +21,9 @@ MANIFEST = {
             "operations equal the float operation on the converted integer (both orders); string + string/null and "
             "string * n = repeat max(n, 0); no operator ever returns a NaN float. The model is tied to the code by "
             "running the five operations on generated pairs through the trait methods, through compiled programs on "
-            "events, and through the Gallina definitions (vm_compute), with Python's unbounded integers and hardware "
+            "events, through literal operands folded by the compile-time constant evaluator (Op::resolve_constant, consumed "
+            "by zip/object_from_array, directly and through variables, nested arithmetic included), and through the "
+            "Gallina definitions (vm_compute), with Python's unbounded integers and hardware "
             "doubles (math.fmod) as a third opinion compared bit for bit.",
     "note": "Trusted: Coq kernel + vm_compute, the hand-written model Model/Arith.v (tied by correspondence only), "
             "Coq's SpecFloat (SFadd/SFsub/SFmul/SFdiv, binary_normalize, precision 53, emax 1024) as the definition of "
@@ -35,7 +37,7 @@ MANIFEST = {
 
 
 def gen_cases(run, n):
-    return ac.gen_cases(run, n, "arith")
+    return ac.gen_cases(run, n, "arith", lit_share=0.2)
 
 
 def nontrivial(c):
